@@ -84,7 +84,9 @@ class Prop:
                 cs.append(Case('regex ' + hx(''.join(t).encode()), 'exh-delims-len%d' % n))
         self.exhaustive_note = 'all texts of length <= %d over %r; all texts of length <= %d over "/\\\\a"' % (maxlen, ''.join(alpha), m)
         atoms = ['a', 'b', '[a-z]', '[0-9]+', '(ab|c)', 'x?', 'y*', '\\d{2}', '\\/', '\\\\', '.', '[^/]', '\\.', ' ', 'é', '\x01',
-                 '\\x41', '<', '&', '"', "'", '\\"', '\t', '\U0001F600', '[\\]\\/]', '(?i)z', '^', '$', '\\w+@\\w+']
+                 '\\x41', '<', '&', '"', "'", '\\"', '\t', '\U0001F600', '[\\]\\/]', '(?i)z', '^', '$', '\\w+@\\w+',
+                 # percent signs: the pattern travels through text templates on its way into a referring schema
+                 '%', '%s', '%d', '%%', '%[0-9A-F]{2}', '\\d{1,3}%']
         nrand = 2000 if tier == 'quick' else 40000
         for _ in range(nrand):
             p = ''.join(rng.choice(atoms) for _ in range(rng.randint(0, 6)))
